@@ -52,6 +52,14 @@ theorem wrap_ne_tv {r : Raw} (h : r ≠ .raisedTV) : wrap r ≠ .tvMismatch := b
   | raisedOther => simp [wrap]; split <;> simp
   | raisedPed => simp [wrap]
 
+theorem ntNode_ne_tv {env : Env} {c : ClsId} {v : Val} {f : List NameId → List Val → Raw} (h : ∀ vn xs, f vn xs ≠ .raisedTV) :
+    ntNode env c v f ≠ .raisedTV := by
+  unfold ntNode
+  split; · simp
+  split
+  · exact h _ _
+  · simp
+
 theorem noTV_raw (env : Env) (orc : Nat → Val → Raw) (horc : ∀ k v, orc k v ≠ .raisedTV) :
     (∀ pc a v, isInstance env orc pc a v ≠ .raisedTV) ∧ (∀ pc as xs, zipRaw env orc pc as xs ≠ .raisedTV) ∧
     (∀ pc ms v, anyRaw env orc pc ms v ≠ .raisedTV) ∧ (∀ pc ns as vn xs, fieldsRaw env orc pc ns as vn xs ≠ .raisedTV) := by
@@ -60,14 +68,16 @@ theorem noTV_raw (env : Env) (orc : Nat → Val → Raw) (horc : ∀ k v, orc k 
     (motive_2 := fun pc as xs => zipRaw env orc pc as xs ≠ .raisedTV)
     (motive_3 := fun pc ms v => anyRaw env orc pc ms v ≠ .raisedTV)
     (motive_4 := fun pc ns as vn xs => fieldsRaw env orc pc ns as vn xs ≠ .raisedTV)
-  case case2 => intro _ c v; simp only [isInstance, clsNode]; split <;> simp
+  case case2 =>
+    intro _ c v; simp only [isInstance, clsNode]
+    split
+    · exact ntNode_ne_tv (fun _ _ => by simp)
+    · simp
   case case3 =>
     intro _ c names anns v ih
     simp only [isInstance, clsFNode]
     split
-    · split
-      · simp
-      · exact ih _ _
+    · exact ntNode_ne_tv (fun vn xs => ih vn xs)
     · simp
   case case4 => intro _ _; simp only [isInstance, anyNode]; split <;> simp
   case case5 =>
@@ -82,88 +92,40 @@ theorem noTV_raw (env : Env) (orc : Nat → Val → Raw) (horc : ∀ k v, orc k 
   case case8 =>
     intro pc sp0 a v
     simp only [isInstance, typeOfNode]
-    split; · simp
-    split; · simp
-    split; · simp
-    split; · simp
-    split; · simp
-    split; · simp
-    split
-    · simp
-    · split
-      · exact isSubtypeCls_ne_tv _ _ _
-      · simp
+    repeat' split
+    all_goals first | (simp; done) | exact isSubtypeCls_ne_tv _ _ _
   case case9 =>
     intro _ n v
     simp only [isInstance, fwdNode]
     split
     · split
-      · split
-        · simp
-        · split
-          · simp
-          · split <;> simp
+      · exact ntNode_ne_tv (fun _ _ => by split <;> simp)
       · simp
     · simp
   case case11 =>
     intro pc sp0 o a v ih
     simp only [isInstance, seqNode]
-    split; · simp
-    split; · simp
-    split; · simp
-    split; · simp
-    split; · simp
-    split; · simp
-    split; · simp
-    split
-    · exact elemQuant_ne_tv _ _ (fun x => ih _ x)
-    · simp
+    repeat' split
+    all_goals first | (simp; done) | exact elemQuant_ne_tv _ _ (fun x => ih _ x)
   case case12 =>
     intro pc sp0 o k w v ihk ihw
     simp only [isInstance, mapNode]
-    split; · simp
-    split; · simp
-    split; · simp
-    split; · simp
-    split; · simp
-    split; · simp
-    split
-    · apply allRaw_ne_tv
+    repeat' split
+    all_goals first | (simp; done) | skip
+    all_goals
+      apply allRaw_ne_tv
       intro kv
-      apply and2_ne_tv
-      · split
-        · exact ihk _ _
-        · simp
-      · split
-        · exact ihw _ _
-        · simp
-    · simp
+      apply and2_ne_tv <;> first | exact ihk _ _ | exact ihw _ _ | simp
   case case13 =>
     intro pc sp0 items v ih
     simp only [isInstance, tupleNode]
-    split; · simp
-    split; · simp
-    split; · simp
-    split; · simp
-    split; · simp
-    split; · simp
-    split
-    · split
-      · simp
-      · exact ih _ _
-    · simp
+    repeat' split
+    all_goals first | (simp; done) | exact ih _ _
   case case14 =>
     intro pc sp0 a v ih
     simp only [isInstance, tupleVarNode]
-    split; · simp
-    split; · simp
-    split; · simp
-    split; · simp
-    split; · simp
-    split; · simp
-    split
-    · exact allRaw_ne_tv _ _ (fun x => ih _ x)
-    · simp
+    repeat' split
+    all_goals first | (simp; done) | exact allRaw_ne_tv _ _ (fun x => ih _ x)
   case case15 =>
     intro _ o v
     simp only [isInstance]
@@ -171,6 +133,9 @@ theorem noTV_raw (env : Env) (orc : Nat → Val → Raw) (horc : ∀ k v, orc k 
   case case16 => intro _ k v; simp only [isInstance]; exact horc k v
   case case17 => intro pc a as x xs ih1 ih2; simp only [zipRaw]; exact and2_ne_tv ih1 ih2
   case case20 => intro pc a as v ih1 ih3; simp only [anyRaw]; exact anyStep_ne_tv ih1 ih3
+  case case21 =>
+    intro pc n ns a as vn xs hl ih4
+    simp only [fieldsRaw, hl]; exact ih4
   case case22 =>
     intro pc n ns a as vn xs x hl ih1 ih4
     simp only [fieldsRaw, hl]; exact allStep_ne_tv ih1 ih4
